@@ -1,0 +1,5 @@
+//go:build !verif
+
+package batcher
+
+func verifPoint(string, ...any) {}
